@@ -160,7 +160,8 @@ def generate(ctx):
             cases.append(case(cs, doc, patch, tags))
     # documents nested about as deep as the parser accepts: operations at the bottom, and test on deep values
     if ctx.get('seed_index', 0) == 0:
-        for depth in (997, 998, 999):
+        NL = nesting_limit(ctx['repo'])
+        for depth in (NL - 3, NL - 2, NL - 1):
             d = [1, 2]
             for _ in range(depth): d = [d]
             bottom = '/0' * depth
